@@ -334,6 +334,74 @@ def body_history(case, ctx):
     ctx.event("shape=" + tag)
 
 
+# ------------------------------------------------------------------ the same numbers in other array forms
+@st.composite
+def form_cases(draw):
+    m, p, d = draw(st.integers(1, 6)), draw(st.integers(2, 6)), draw(st.integers(1, 2))
+    pts = draw(st.lists(st.tuples(*[st.integers(-6, 6)] * d), min_size=p, max_size=p, unique=True))
+    return {"seed": draw(st.integers(0, 2**31)), "m": m, "p": p, "d": d, "x": [list(t) for t in pts],
+            "A": [[draw(st.integers(-3, 3)) for _ in range(p)] for _ in range(m)],
+            "y": [draw(st.integers(-9, 9)) for _ in range(m)], "err": [draw(st.integers(1, 4)) for _ in range(m)],
+            "kernel": draw(st.sampled_from([{"k": "SE"}, {"k": "RQ"}])), "mean": draw(st.sampled_from(["Constant", "Linear"])),
+            "theta": [draw(st.floats(-1.2, 1.2)) for _ in range(8)],
+            "forms": {k: draw(st.sampled_from(["float64", "int64", "int32", "float32", "fortran", "strided"])) for k in ("x", "A", "y", "err")}}
+
+
+def body_forms(case, ctx):
+    """whole-number data, errors, model matrix and positions are the same problem whether held as float64, integer, single-precision,
+    Fortran-ordered or strided arrays"""
+    from props.c02_gp_posterior import as_form
+
+    m, p, d = case["m"], case["p"], case["d"]
+    X = np.array(case["x"], dtype=float).reshape(p, d)
+    A, y, err = np.array(case["A"], dtype=float).reshape(m, p), np.array(case["y"], dtype=float), np.array(case["err"], dtype=float)
+    spec = case["kernel"]
+    n_theta = rk.mean_n_params(case["mean"], d) + rk.n_params(spec, p, d)
+    theta = np.array(case["theta"][:n_theta], dtype=float)
+    f = case["forms"]
+
+    def build(fx, fa, fy, fe):
+        with warnings.catch_warnings():
+            warnings.simplefilter("ignore")
+            return GpLinearInverter(y=as_form(y, fy), y_err=as_form(err, fe), model_matrix=as_form(A, fa), parameter_spatial_positions=as_form(X, fx),
+                                    prior_covariance_function=rk.build_kernel(spec), prior_mean_function=rk.build_mean(case["mean"]))
+
+    ref, inv = build("float64", "float64", "float64", "float64"), build(f["x"], f["A"], f["y"], f["err"])
+    with np.errstate(all="ignore"):
+        try:
+            mu0, S0 = ref.calculate_posterior(theta.copy())
+            l0, (lg0, g0) = float(ref.marginal_likelihood(theta.copy())), ref.marginal_likelihood_gradient(theta.copy())
+            mu1, S1 = inv.calculate_posterior(theta.copy())
+            mo1 = inv.calculate_posterior_mean(theta.copy())
+            l1, (lg1, g1) = float(inv.marginal_likelihood(theta.copy())), inv.marginal_likelihood_gradient(theta.copy())
+        except np.linalg.LinAlgError:
+            raise Inconclusive("singular")
+    mu0, S0, mu1, S1, mo1, g0, g1 = (np.asarray(a, dtype=float) for a in (mu0, S0, mu1, S1, mo1, g0, g1))
+    K = rk.ref_build(spec, X, theta[rk.mean_n_params(case["mean"], d):])
+    with np.errstate(all="ignore"):
+        kappa = max(np.linalg.cond(np.eye(p) + K @ (A.T @ np.diag(err**-2.0) @ A)), np.linalg.cond(A @ K @ A.T + np.diag(err**2)))
+    if not np.isfinite(kappa) or kappa > 1e8 or not np.all(np.isfinite(mu0)):
+        raise Inconclusive("ill-conditioned")
+    tol = 1e-9 + 1000 * kappa * EPS
+    if "float32" in f.values():
+        tol = max(tol, 1e-5 * max(kappa, 1.0))
+    what = ", ".join(f"{k}={v}" for k, v in f.items())
+    pairs = [("posterior mean", mu1, mu0, np.max(np.abs(mu0)) + np.max(np.abs(y)) + 1), ("mean-only path", mo1, mu0, np.max(np.abs(mu0)) + np.max(np.abs(y)) + 1),
+             ("posterior covariance", S1, S0, np.max(np.abs(S0)) + 1e-300), ("evidence", np.array([l1, float(lg1)]), np.array([l0, l0]), abs(l0) + m),
+             ("evidence gradient", g1, g0, np.max(np.abs(g0)) + abs(l0) + m)]
+    for name, got, want, scale in pairs:
+        if got.shape != want.shape:
+            raise Violation("forms-shape", f"[{what}] {name}: shape {got.shape} vs {want.shape} from float64 arrays")
+        e = float(np.max(np.abs(got - want))) / (tol * scale)
+        ctx.ratio("forms", e, 1.0)
+        if not e <= 1:
+            raise Violation("forms:" + "+".join(sorted({v for v in f.values() if v != "float64"})), f"A {A.shape}, {rk.describe(spec)}, {case['mean']}: {name} from [{what}] is {got.ravel()[:5].tolist()}, "
+                            f"from float64 arrays of the same numbers {want.ravel()[:5].tolist()}")
+    ctx.nontrivial(any(v in ("int64", "int32") for v in f.values()))
+    for k, v in f.items():
+        ctx.event(f"{k}:{v}")
+
+
 SUBCHECKS = [
     Sub("posterior", lambda t: cases(14 if t == "thorough" else 10), body_posterior, quick=1000, thorough=40000,
         shards_quick=10, shards_thorough=16, rule="(m != p or rank-deficient A) with >= 3 hyper-parameters, kappa <= 1e9"),
@@ -341,4 +409,6 @@ SUBCHECKS = [
         rule="(m != p or rank-deficient A) with >= 3 hyper-parameters, kappa <= 1e5"),
     Sub("history", lambda t: history_cases(), body_history, quick=600, thorough=20000, shards_quick=6, shards_thorough=16,
         rule="the same caller-owned array re-used in place for >= 2 different hyper-parameter sets on one inverter"),
+    Sub("forms", lambda t: form_cases(), body_forms, quick=600, thorough=20000, shards_quick=6, shards_thorough=16,
+        rule="some of y, errors, model matrix, positions held in an integer array"),
 ]
